@@ -57,6 +57,11 @@ def add_defines(rng, text):
             parts = lines[j].split(None, 1)
             lead = lines[j][:len(lines[j]) - len(lines[j].lstrip())]
             lines[j] = "%s%s %s" % (lead, parts[0], rng.choice(["$%s" % nm.upper(), "${%s}" % nm, "a$%s" % nm]))
+    if len(lines) > 1 and rng.random() < 0.12:
+        # U+FEFF in front of a line that is not the first one: part of the key (or what turns a
+        # comment into a key line) wherever the line ends up
+        j = rng.randrange(1, len(lines))
+        lines[j] = "\ufeff" + lines[j].lstrip()
     return "".join(l + "\n" for l in lines)
 
 
